@@ -148,7 +148,8 @@ def trig_axioms(path_or_log):
         elif e[0] == 'asin':
             _, x, t = e
             ax += [z3.Implies(z3.And(x >= -1, x <= 1), z3.And(2 * t >= -PI, 2 * t <= PI, SIN(t) == x, COS(t) >= 0,
-                                                              COS(t) * COS(t) == 1 - x * x))]
+                                                              COS(t) * COS(t) == 1 - x * x)),
+                   z3.Implies(z3.And(x >= 0, x <= 1), t >= 0), z3.Implies(x == 0, t == 0)]
         elif e[0] == 'exp':
             _, a, t = e
             ax += [t > 0, z3.Implies(a == 0, t == 1), z3.Implies(a <= 0, t <= 1), z3.Implies(a >= 0, t >= 1)]
